@@ -122,5 +122,22 @@ CHECKS["C08"] = {
     "level_note": "Trusts the harness world; requests enter through Server.buildHandler() by direct call.",
 }
 
+CHECKS["C11"] = {
+    "level": "exploration",
+    "rule": "history H1 (1-12 model-valid commands over up to 4 multi-host / multi-path / multi-target services with drawn options: "
+            "strip, TLS static/automatic, redirect, error pages, health path/interval/timeout, target timeout, buffering + limits, "
+            "forward headers, log headers; rollout deploy/set/stop, pause, stop, resume, remove), restart (router B restored from a "
+            "copy of A's state file), continuation H2 (0-8 commands, a quarter of them failing ones) issued to both; oracle: A and B "
+            "agree on command result class and duration, list, 9x10x2 request matrix (slots, stop pages, redirect targets), rollout "
+            "side of 5 cookies, parsed state file, in-package view of options / target options / pause / split, a behaviour suite "
+            "(URI after stripping, forwarded headers, 413/500 at 7 body sizes, 504 at 8 target delays with exact durations) and the "
+            "outcome and instant of requests held across the continuation. Non-trivial = restart with >=1 non-default option and >=1 "
+            "of {paused, stopped, rollout, multi-target}. Distinct by plan hash.",
+    "layers": [L("TestVF_C11", 200, 3000)],
+    "technique": "property-based testing (rapid): differential between the original router and one restored from its state file, over generated histories and continuations",
+    "level_text": "Bounded random exploration with a differential oracle over every observable the harness can reach; licences: rotation position, health presumed until first probe.",
+    "level_note": "All pool targets are healthy, so the 'presumed healthy' licence is never exercised here (C09 covers health); both routers probe the same fake targets.",
+}
+
 ALL_IDS = ["C%02d" % i for i in range(1, 21)]
 NOT_APPLICABLE = {pid: "check not built yet (work in progress; see DESIGN.md section 8 for the order of work)" for pid in ALL_IDS if pid not in CHECKS}
